@@ -77,7 +77,17 @@ func (e *lcEnv) providerID() string {
 // C09 (NodeClaim half)
 func VerifC09_NodeClaimFinalizer() {
 	e := lcSetup()
-	if verifrt.Bound("allFaultKinds", 0, 1) == 0 {
+	// quick: 3 reconciles, generic write/create errors. thorough: two configurations — 4 reconciles with generic errors,
+	// and 3 reconciles with every fault kind (NotFound, Conflict, capacity errors); their product exhausts the path budget
+	rounds, allKinds := 3, false
+	if verifrt.Bound("deepConfigs", 0, 1) == 1 {
+		if verifrt.Choice("config", 0, 1) == 0 {
+			rounds = 4
+		} else {
+			allKinds = true
+		}
+	}
+	if !allKinds {
 		e.kc.FaultMax = stubs.FaultOther
 		e.cp.CreateErrors = []int{stubs.CreateOther}
 	}
@@ -120,7 +130,6 @@ func VerifC09_NodeClaimFinalizer() {
 			e.cp.Terminating[nc.Status.ProviderID] = true
 		}
 	}
-	rounds := verifrt.Bound("reconciles", 3, 4)
 	for r := 0; r < rounds; r++ {
 		e.reconcile()
 		if r == rounds-1 {
